@@ -715,7 +715,28 @@ func (s *synGen) long() *Grammar {
 	}
 	top := &NTDef{Head: "S", Alts: []SAlt{alt(body...), alt(s.terms[0])}}
 	x := &NTDef{Head: "X", Alts: []SAlt{alt(s.terms[1]), alt(s.terms[2], nt("X"))}}
-	return &Grammar{NTs: []*NTDef{top, x}}
+	g := &Grammar{NTs: []*NTDef{top, x}}
+	if s.r.Intn(2) == 0 {
+		// many productions as well: production numbers and dot positions both reach two digits
+		// (an item key that runs them together confuses (1,10) with (11,0))
+		top.Alts[0].Body = append(top.Alts[0].Body, nt("Tail"))
+		top.Alts = append(top.Alts, alt(s.terms[3], nt("Kind")))
+		kind := &NTDef{Head: "Kind"}
+		for i, n := 0, 8+s.r.Intn(14); i < n; i++ {
+			b := []Sym{s.terms[i%4]}
+			for k := i / 4; k > 0; k-- {
+				b = append(b, s.terms[(i+k)%4])
+			}
+			b = append(b, s.terms[3], s.terms[3])
+			kind.Alts = append(kind.Alts, alt(b...))
+		}
+		tail := &NTDef{Head: "Tail", Alts: []SAlt{alt(s.terms[0], s.terms[1]), alt(s.terms[2])}}
+		g.NTs = []*NTDef{top, kind, tail, x}
+		if s.r.Intn(2) == 0 {
+			g.NTs = []*NTDef{top, x, kind, tail}
+		}
+	}
+	return g
 }
 
 func (s *synGen) random() *Grammar {
